@@ -69,6 +69,7 @@ func runC01(p *Prog, r *Report) {
 	c01Gitignore(p, r, e)
 	c01Attribution(p, r, e)
 	c01Walker(p, r, e)
+	setOnlyAtConstruction(p, r, "D7-walk", "extractor/filesystem/internal", "dirIterator", "files", "the preloaded list of a directory iterator is replaced after construction: `files != nil` is the iterator's mode (everything was read up front, the list's end is the directory's end), so an iterator that reads in batches reports end-of-directory after its first batch and the remaining entries — files and whole sub-trees — are never visited")
 	c01Same(p, r, e)
 	c01ParentPatternsReset(p, r, e, "D8-same")
 	r.Rule("D5-balanced", "gitignore push/pop balanced: patterns of skipped directories never unbalance the stack")
